@@ -1,4 +1,4 @@
-from vlib import Obl, Prog, borrow
+from vlib import load_plan, Obl, Prog, borrow
 
 def obligations(tier):
     nmax = 12 if tier == "quick" else 20
@@ -28,4 +28,4 @@ def obligations(tier):
             outside=["heaps larger than %d elements" % nmax],
             claim="from any valid heap of NN elements one insert or delmin preserves heap order and the multiset, and min is earliest-due",
             ),
-    ]
+    ] + [load_plan("C16").signals_obligation(tier)]   # an ALRM makes everything due at once: the main loop never forgets an ALRM
